@@ -26,7 +26,6 @@ import (
 	"strconv"
 	"strings"
 	"sync"
-	"time"
 
 	"k8s.io/apimachinery/pkg/apis/meta/v1/unstructured"
 	"k8s.io/client-go/tools/cache"
@@ -232,7 +231,8 @@ func sentinelKey(rd ResourceDef) (ns, key string) {
 	return "", SentinelName
 }
 
-func isSentinelKey(key string) bool { return strings.Contains(key, SentinelName) }
+// objects named zz-... belong to the harness (sentinels, objects sacrificed to open a watch gap)
+func isSentinelKey(key string) bool { return strings.Contains(key, "zz-") }
 
 // RunExt executes one scenario like Run, with the additional step kinds.  Scenarios must
 // seed a sentinel object (name zz-sentinel, namespace zz) for every tapped resource:
@@ -387,7 +387,7 @@ func (x *extState) parentsDump() []interface{} {
 	var items []Obj
 	for _, p := range x.ctl.ParentStore().List() {
 		o := toObj(p)
-		if metaStr(o, "name") == SentinelName {
+		if isSentinelKey(metaStr(o, "name")) {
 			continue
 		}
 		items = append(items, o)
@@ -666,5 +666,3 @@ func (r *Runner) hookHandlerExt(c *HookCall) HookReply {
 	r.Trace.Emit(ev)
 	return reply
 }
-
-var _ = time.Second
